@@ -3,6 +3,7 @@ package rules
 import (
 	"fmt"
 	"go/ast"
+	"go/constant"
 	"go/token"
 	"go/types"
 	"strings"
@@ -101,6 +102,8 @@ func checkLabelWiring(c *Ctx) {
 		c.Check("C16/header/"+name, "header writers build the header for their label with the shared builder, refusing labels over LabelMaxSize", fn.Decl.Pos(), okB, "header not built by makeLabelHeader(label, ...) under the length guard")
 	}
 	// 3. sibling agreement of the two removers
+	checkAADConcat(c, "C16")
+	checkStreamReaderSize(c)
 	ruleS := "the packet and stream header removers perform the same validation (magic byte, size >= 1, enough bytes) and read the label from the offsets the builder writes (size at 1, label from 2)"
 	c.Rule(ruleS)
 	for _, name := range []string{"RemoveLabelHeaderFromPacket", "RemoveLabelHeaderFromStream"} {
@@ -231,4 +234,44 @@ func checkLabelWiring(c *Ctx) {
 	})
 	c.Check("C16/header/builder-layout", ruleS, mk.Decl.Pos(), okMk && w0 && w1, "builder does not write magic at 0 and the label length at 1")
 	_ = core.RootPath
+}
+
+// checkStreamReaderSize: the buffered reader the stream header remover peeks
+// into can hold the longest header (2 + LabelMaxSize bytes): bufio.Reader.Peek
+// fails with ErrBufferFull beyond its buffer size, so a reader created with an
+// explicit, smaller size makes streams with the longest labels undecodable.
+func checkStreamReaderSize(c *Ctx) {
+	p := c.P
+	fn := c.MustFunc("RemoveLabelHeaderFromStream")
+	rule := "stream header removal: the buffered reader can hold the longest label header (2 + LabelMaxSize bytes), so Peek never fails with a full buffer for a valid header"
+	c.Rule(rule)
+	maxLabel := int64(255)
+	if o, ok := p.Types.Scope().Lookup("LabelMaxSize").(*types.Const); ok {
+		if v, exact := constant.Int64Val(constant.ToInt(o.Val())); exact {
+			maxLabel = v
+		}
+	}
+	n := 0
+	inspectFn(fn, func(nd ast.Node) bool {
+		call, ok := nd.(*ast.CallExpr)
+		if !ok {
+			return true
+		}
+		f := p.Callee(call)
+		if f == nil {
+			return true
+		}
+		switch core.FuncFullName(f) {
+		case "bufio.NewReader":
+			n++
+			c.Check("C16/remover/stream-reader-size", rule, call.Pos(), true, "") // default size 4096
+		case "bufio.NewReaderSize":
+			n++
+			v, isC := p.ConstInt(call.Args[1])
+			c.Check("C16/remover/stream-reader-size", rule, call.Pos(), isC && (v >= 2+maxLabel || v < 16 && 16 >= 2+maxLabel),
+				fmt.Sprintf("reader created with a buffer of %d bytes; the longest label header is %d bytes", v, 2+maxLabel))
+		}
+		return true
+	})
+	c.Floor("buffered readers in the stream header remover", n, 1)
 }
